@@ -43,15 +43,20 @@ theorem inv_failSource {s : St} (n : Name) (e : Err) (h : Inv s) : Inv (failSour
   exact ⟨h.noPut, AList.nodup_keys_set _ _ _ h.procNodup,
     AList.all_set _ _ _ h.procOK (by intro _; rfl), h.builtNodup⟩
 
+theorem inv_clearStale {s : St} (k : Name) (h : Inv s) : Inv (clearStale s k) := by
+  unfold clearStale
+  split
+  · exact ⟨h.noPut, AList.nodup_keys_del _ _ h.procNodup, AList.all_del _ _ h.procOK, h.builtNodup⟩
+  · exact h
+
 theorem inv_registerTree {s : St} (req : List Name) (n alias : Name) (mtime : Int) (tree : Nat)
     (name : Name) (imports : List Name) (h : Inv s) :
     Inv (registerTree req s n alias mtime tree name imports) := by
   unfold registerTree
   simp only
-  split <;> split <;>
-    first
-    | exact ⟨h.noPut, AList.nodup_keys_del _ _ h.procNodup, AList.all_del _ _ h.procOK, h.builtNodup⟩
-    | exact ⟨h.noPut, h.procNodup, h.procOK, h.builtNodup⟩
+  have h0 : Inv ({ s with parsed := s.parsed.set name (alias, mtime, tree) } : St) := ⟨h.noPut, h.procNodup, h.procOK, h.builtNodup⟩
+  have h1 := inv_clearStale name (inv_clearStale n h0)
+  split <;> exact ⟨h1.noPut, h1.procNodup, h1.procOK, h1.builtNodup⟩
 
 theorem inv_symTrees (c : Cfg) (req : List Name) (n alias : Name) (mtime : Int) (ts : List Nat)
     (s : St) (h : Inv s) : Inv (symTrees c req n alias mtime ts s).1 := by
